@@ -407,7 +407,9 @@ class InstanceWriteProvider(BaseProvider):
                             _format("Reference property {0!A} association "
                                     "end {1!A} with None value not allowed ",
                                     prop.name, prop.value))
-                    if prop.value != original_instance[pn]:
+                    # Note: The original value may be None (NULL)
+                    if original_instance[pn] is None or \
+                            prop.value != original_instance[pn]:
                         self.validate_reference_property_endpoint_exists(prop,)
 
         # Update the properties in the original instance from properties
